@@ -257,6 +257,13 @@ impl Client {
                     true
                 }
                 Ok(Some(RequestResult::Result(Err(e), _))) => {
+                    // like quiver-cli's REPL loop: a runtime error ends the session; the next line
+                    // starts a fresh Repl (new persistent process, no variables)
+                    if let Some(ClientOp::Line { session, .. }) = self.ops.get(self.pc).cloned()
+                        && let Some(slot) = self.sessions.get_mut(session)
+                    {
+                        *slot = None;
+                    }
                     self.finish(Out::RuntimeError(format!("{:?}", e)), steps);
                     true
                 }
